@@ -238,6 +238,29 @@ pub proof fn lemma_usage_exact_step(du0: UsageMap, du1: UsageMap, net: &Network,
     }
 }
 
+/// C09 / C02, the counts: with an exact table the spawn count and the balance of (d, vt) are the sizes
+/// of the from-scratch sets, whatever (finite) representation S / E of these sets one counts
+pub proof fn lemma_exact_counts(du: UsageMap, net: &Network, vehicles: VehicleMap, tours: TourMap,
+        d: DepotIdx, vt: VehicleTypeIdx, starting: Set<VehicleIdx>, ending: Set<VehicleIdx>)
+    requires
+        usage_exact(du, net, vehicles, tours),
+        forall|v: VehicleIdx| #[trigger] starting.contains(v) <==> starts_at(net, vehicles, tours, v, d, vt),
+        forall|v: VehicleIdx| #[trigger] ending.contains(v) <==> ends_at(net, vehicles, tours, v, d, vt),
+    ensures
+        sp_spawned(du, d, vt) == starting,
+        sp_despawned(du, d, vt) == ending,
+        sp_balance(du, d, vt) == starting.len() - ending.len(),
+{
+    assert forall|v: VehicleIdx| sp_spawned(du, d, vt).contains(v) <==> #[trigger] starting.contains(v) by {
+        assert(usage_exact_for(du, net, vehicles, tours, v));
+    }
+    assert forall|v: VehicleIdx| sp_despawned(du, d, vt).contains(v) <==> #[trigger] ending.contains(v) by {
+        assert(usage_exact_for(du, net, vehicles, tours, v));
+    }
+    assert(sp_spawned(du, d, vt) =~= starting);
+    assert(sp_despawned(du, d, vt) =~= ending);
+}
+
 // ---- balances ------------------------------------------------------------------------------------------
 /// "the number of vehicles spawned at the depot minus the number despawned there"
 pub open spec fn sp_balance(du: UsageMap, d: DepotIdx, vt: VehicleTypeIdx) -> int {
